@@ -11,8 +11,8 @@ CLAIMS={
    technique="contract-based deductive verification: WP/symbolic execution over go/ssa with full loop unrolling + unwinding assertion, QF_BV obligations discharged by z3/cvc5; counterexamples replayed on the real code via go test -overlay",
    design="5 (C17)"),
  "C09": dict(
-   text="Contracts on InsertPoint, InsertCoord, insertCoord and InsertPolygon state, from the property text: a point is accepted exactly when its integer representation lies in the half-open grid [min, min + 2^level*res) on both axes; InsertPolygon returns nil exactly when every vertex of every ring does (quantified loop invariants over rings and vertices), otherwise an OutsideGridError, and a rejected point leaves the index unchanged. Every obligation (postconditions, loop invariants, frame, overflow, bounds) generated from the SSA is discharged for all inputs. The defect F2 (a vertex less than one pixel left of / below the grid was accepted) was found as a failing postcondition, replayed on the real code and repaired.",
-   note="Trusted: go/ssa semantics and gvc's translation, the SMT solvers; float64 and the conversion x*1e10 -> int64 over the reals with |ordinate| < 8e8 units; well-formed index (level <= 32, magnitudes below 2^60) as precondition. Not decided: the panic / empty-result branch of SnapPolygon itself (SnapPolygon is not under contract yet).",
+   text="Contracts on InsertPoint, InsertCoord, insertCoord, InsertPolygon and SnapPolygon state, from the property text: a point is accepted exactly when its integer representation lies in the half-open grid [min, min + 2^level*res) on both axes; InsertPolygon returns nil exactly when every vertex of every ring does (quantified loop invariants over rings and vertices), otherwise an OutsideGridError, and a rejected point leaves the index unchanged. Every obligation (postconditions, loop invariants, frame, overflow, bounds) generated from the SSA is discharged for all inputs. The defect F2 (a vertex less than one pixel left of / below the grid was accepted) was found as a failing postcondition, replayed on the real code and repaired.",
+   note="Trusted: go/ssa semantics and gvc's translation, the SMT solvers; float64 and the conversion x*1e10 -> int64 over the reals with |ordinate| < 8e8 units; well-formed index (level <= 32, magnitudes below 2^60) as precondition. SnapPolygon itself is proved to panic or (with IgnoreOutsideGrid) return an empty result whenever some vertex is outside the grid, and never to return an empty result otherwise-caused; errors.As is an assumed contract.",
    technique="contract-based deductive verification: VCs from go/ssa with loops cut at quantified invariants, mathematical integers with discharged overflow obligations, z3/cvc5; counterexamples replayed via go test -overlay",
    design="5 (C09)"),
  "C02": dict(
@@ -30,6 +30,26 @@ CLAIMS={
    note="Trusted: go/ssa semantics and gvc's translation, SMT solvers; float64 treated as real numbers (IEEE rounding not modelled); IsLatLon / axisOrderIsLatLon are trusted to be deterministic and panic-free, the EPSG axis table is data (a wrong table entry or a wrong branch inside IsLatLon is NOT detected); points less than 9e18 tiles from the origin. Not decided: bounding box == span of the corner tiles exactly (double rounding at ties), points within 1e-9 of a border.",
    technique="contract-based deductive verification: VCs from go/ssa over reals with to_int for truncation/rounding, property-level lemmas over the contracts, z3/cvc5",
    design="5 (C15)"),
+ "C08": dict(
+   text="First sentence, proved for all inputs: SnapPolygon's result is keyed by requested tile matrix ids only (every key is an element of tmIDs), each key carries exactly what addPointsAndSnap computed for that id's level (level = id + log2(tile width) + 4, proved injective through tileMatrixIDsByLevels), and every level addPointsAndSnap returns is a requested one (loop invariants over the shared levelMap from which levels are deleted). Per call it is also proved that the list of pixels the descent hands out for a level is exactly the set of stored pixels of that level met by the edge (contracts of C02), and the verifier's alias discipline rejects any append to a slice shared between levels. The second sentence (same geometry whether a tile matrix is requested alone or with others) relates two executions and is NOT decided; a bounded stand-in (descent on a 4x4 grid for several level combinations) runs as an extra.",
+   note="Trusted: go/ssa semantics and gvc's translation, SMT solvers, slices.Max / errors.As / maps.Keys assumed contracts, ring assembly leaves (cleanupNewRing, dedupeInnersOuters, matchInnersToPolygons, outersToPolygons, ensureCorrectWindingOrder) trusted for lengths only. insertCoord's representation invariants are assumed postconditions. Preconditions of SnapPolygon's contract: ids in [0,1000], indexable tile matrix set with level <= 32, round grid, |ordinate| < 2e8.",
+   technique="contract-based deductive verification: VCs from go/ssa, quantified loop invariants over maps and map-range iterators, z3/cvc5; bounded stand-in labelled",
+   design="5 (C08)"),
+ "C05": dict(
+   text="Proved for all inputs (under SnapPolygon's preconditions): no tile matrix id is mapped to an empty list - a level at which the shell collapses is deleted from the level map and therefore absent - and only requested ids are present; addPointsAndSnap returns a non-nil map keyed by requested levels whose lists are all non-empty, with or without keep-points-and-lines. The statements about the rings themselves (shell first, orientation, closure, no repeated vertices, at least three vertices) live in the ring assembly, which is outside the verifier's reach and NOT decided; the known defect F4 of the property statement is in that part.",
+   note="Trusted: as for C08. The leaves outersToPolygons (one polygon per outer ring) and matchInnersToPolygons (never fewer polygons than given) are trusted for exactly these length facts; a change inside them is not detected.",
+   technique="contract-based deductive verification: VCs from go/ssa with quantified invariants over maps, z3/cvc5",
+   design="5 (C05)"),
+ "C03": dict(
+   text="Proved chain, for all inputs under the stated preconditions: FromTileMatrixSet builds the index on the bounding box of tile matrix 0 with level = id + log2(tile width) + 4 and integer pixel size span / 2^level; every stored pixel of level l carries the extent and centre min + k*span_l (+ span_l/2) of the grid formula (invariant indexGrid, preserved by InsertPoint / InsertCoord / InsertPolygon; for insertCoord itself it is an ASSUMED postcondition); SnapClosestPoints hands out, position by position, centre/1e10 of stored pixels of the requested level met by the edge; tileMatrixIDsByLevels and SnapPolygon map levels back to exactly the requested ids. MatrixBoundingBox / MatrixSize / ToXYPoint are proved against the cell size arithmetic (C15). NOT decided: that the ring assembly only rearranges or drops those coordinates, and the second sentence (deviation bound for grids that do not divide evenly).",
+   note="Trusted: as for C08; float64 as reals (centre/1e10 exact). A bounded stand-in (descent on a 4x4 grid against an exact oracle) runs as an extra and is not counted as proved.",
+   technique="contract-based deductive verification: VCs from go/ssa, representation invariant as quantified macro over nested maps, z3/cvc5",
+   design="5 (C03)"),
+ "C06": dict(
+   text="For the routing layer - SnapPolygon, FromTileMatrixSet, MatrixBoundingBox, tileMatrixIDsByLevels, InsertPolygon, InsertPoint, InsertCoord, insertCoord (MustToZ never panics for level <= 32), addPointsAndSnap's own statements, SnapClosestPoints, snapClosestPoints, findIntersectingQuadrants, lineIntersects, cmpFrac, getQuadrantZs, cleanupNewVertices, AsKeys, LastElement - every index, slice, nil-map, division, conversion, type-assertion and overflow obligation generated from the SSA is discharged and every loop has a proved variant (decreases) or is a range loop, so no panic and no endless loop originates there for any in-grid polygon, except at the explicitly modelled panic sites: SnapPolygon's panic for a vertex outside the grid (proved to be the only case, C09), cleanupNewVertices on an empty list, and whatever the ring assembly does. The ring assembly and the no-points-found guard are covered only by a bounded stand-in (labelled). Known finding F6 (pixel level above 32 panics) is reported as KNOWN-FINDING.",
+   note="Trusted: as for C08. Ring assembly functions are trusted leaves whose panic is treated as possible by callers; they are not under contract. No complexity bound is proved.",
+   technique="contract-based deductive verification (safety and termination obligations from go/ssa, z3/cvc5) + bounded stand-in for the ring assembly (labelled bounded) + demonstration of the recorded defect",
+   design="5 (C06)"),
 }
 NA={
  # filled below for every property that is not claimed
